@@ -630,6 +630,12 @@ impl Prop for C09 {
     }
     fn extra_stage(&self, st: &mut Stats, tier: Tier, seed: u64) {
         crate::props::tsan::run_tsan_stage(st, tier, seed);
+        // pooled 2D/3D/mesh toy workloads under Miri's data-race detector,
+        // four preemption schedules picked by the seed
+        if tier == Tier::Thorough {
+            let base = (seed % 1000) * 4;
+            crate::props::miri::run_miri_stage(st, "sched", 0, Some((base, base + 4)), 4 * 3600);
+        }
     }
     fn finish(&self, st: &mut Stats, _tier: Tier) {
         for k in ["image2", "image3", "mesh"] {
